@@ -2,7 +2,7 @@
 # Re-run every stored seeded change against the current machinery:
 # tools_seed_regress.sh [ids...]   (scratch worktree under /tmp, removed afterwards)
 cd /verif
-IDS=${@:-$(ls seeded)}
+IDS=${@:-$(cd seeded && ls -d C*-*)}
 OUT=/verif/seeded/REGRESSION.txt
 : > $OUT.tmp
 for id in $IDS; do
